@@ -6,7 +6,7 @@
 -/
 import RumaModel.Lemmas.HtmlTree
 namespace Ruma.Lemmas.Html
-open Ruma Ruma.Html Ruma.Spec.HtmlPolicy
+open Ruma Ruma.Html Ruma.Spec.HtmlPolicy Ruma.Spec.HtmlGlob
 
 theorem build_snoc (m : Option Mode) (calls : List BuilderCall) (call : BuilderCall) :
     build m (calls ++ [call]) = call.apply (build m calls) := by
@@ -151,13 +151,44 @@ theorem elemsOfL_append (l₁ l₂ : List Node) : elemsOfL (l₁ ++ l₂) = elem
   | nil => simp [elemsOfL]
   | cons n t ih => simp [elemsOfL, ih]
 
+/-- A condition on every attribute of the renamed set is the condition on every attribute of the
+original list under its new name (`apply_replacements` changes names only; collecting into a set
+changes neither names nor values). -/
+theorem replaceAttrsOf_all (L : Lists) (c : Cfg) (n : Str) (as : List Attr) (p : Str → Str → Bool) :
+    (replaceAttrsOf L c n as).all (fun a => p a.name a.value) =
+      as.all (fun a => p (renamedAttr L c n a.name) a.value) := by
+  have key : (as.map (renameAttr (c.replaceAttrs.bind (fun l => mapGet l.content n))
+        (if !isOverride c.replaceAttrs && c.useStrict then mapGet L.deprecatedAttrs n else none))).all
+        (fun a => p a.name a.value) = as.all (fun a => p (renamedAttr L c n a.name) a.value) := by
+    rw [List.all_map]
+    congr 1
+    funext a
+    simp only [Function.comp, renamedAttr_eq_model]
+  unfold replaceAttrsOf
+  simp only
+  by_cases hc : ((c.replaceAttrs.bind fun l => mapGet l.content n).isSome ||
+      (if (!isOverride c.replaceAttrs && c.useStrict) = true then mapGet L.deprecatedAttrs n else none).isSome) = true
+  · rw [if_pos hc, ← key, Bool.eq_iff_iff, List.all_eq_true, List.all_eq_true]
+    simp only [mem_setCollect]
+  · rw [if_neg hc, ← key]
+    congr 1
+    conv => lhs; rw [← List.map_id as]
+    apply List.map_congr_left
+    intro a _
+    simp only [Bool.or_eq_true, not_or, Bool.not_eq_true, Option.isSome_eq_false_iff,
+      Option.isNone_iff_eq_none] at hc
+    unfold renameAttr
+    rw [hc.1, hc.2]
+    rfl
+
 mutual
 theorem cleanNode_elems (L : Lists) (c : Cfg) : ∀ (node : Node) (d : Nat),
     elemsOfL (cleanNode L c d node) = keptElems L c d node
   | .text s, _ => by simp [cleanNode, elemsOfL, elemsOf, keptElems]
   | .other, _ => by simp [cleanNode, elemsOfL, keptElems]
   | .elem n as cs, d => by
-    simp only [cleanNode, keptElems, ← removeCheck_eq]
+    simp only [cleanNode, keptElems, renamed_eq_model, tooDeep_eq_model, ← replaceAttrsOf_all L c n as
+      (fun a v => valueOk L c (replaceNameOf L c n) a v), ← removeCheck_eq]
     cases ha : nodeAction L c (replaceNameOf L c n) (replaceAttrsOf L c n as) d with
     | remove =>
       have := (nodeAction_remove_iff ..).1 ha
@@ -186,6 +217,26 @@ theorem cleanList_elems (L : Lists) (c : Cfg) : ∀ (l : List Node) (d : Nat),
   | n :: t, d => by
     simp only [cleanList, elemsOfL_append, keptElemsL]
     rw [cleanNode_elems L c n d, cleanList_elems L c t d]
+end
+
+mutual
+theorem keptElems_names (L : Lists) (c : Cfg) : ∀ (node : Node) (d : Nat),
+    (keptElems L c d node).map (·.1) = keptNames L c d node
+  | .text _, _ => by simp [keptElems, keptNames]
+  | .other, _ => by simp [keptElems, keptNames]
+  | .elem n as cs, d => by
+    simp only [keptElems, keptNames]
+    split
+    · rfl
+    · split
+      · simp only [List.map_cons]; rw [keptElemsL_names L c cs (d + 1)]
+      · exact keptElemsL_names L c cs (d + 1)
+theorem keptElemsL_names (L : Lists) (c : Cfg) : ∀ (l : List Node) (d : Nat),
+    (keptElemsL L c d l).map (·.1) = keptNamesL L c d l
+  | [], _ => by simp [keptElemsL, keptNamesL]
+  | n :: t, d => by
+    simp only [keptElemsL, keptNamesL, List.map_append]
+    rw [keptElems_names L c n d, keptElemsL_names L c t d]
 end
 
 /-! ### the builder's lists, evaluated -/
@@ -219,18 +270,19 @@ theorem attrOk_cases (L : Lists) (c : Cfg) (el a : Str) :
 
 theorem classOk_cases (L : Lists) (c : Cfg) (el cl : Str) :
     classOk L c el cl =
-      (!removedClass (c.removeClasses.bind (mapGet · el)) cl &&
+      (!matchesAny ((c.removeClasses.bind (mapGet · el)).getD []) cl &&
       match c.allowClasses with
-      | none => c.mode.isNone || anyGlob ((mapGet L.classes el).getD []) cl
-      | some ⟨true, l⟩ => anyGlob ((mapGet l el).getD []) cl
-      | some ⟨false, l⟩ => anyGlob ((mapGet l el).getD []) cl ||
-          (c.mode.isSome && anyGlob ((mapGet L.classes el).getD []) cl)) := by
-  unfold classOk Cfg.useStrict
-  cases h : c.allowClasses with
-  | none => cases c.mode <;> simp [isOverride, anyGlob]
-  | some b =>
-    obtain ⟨o, l⟩ := b
-    cases o <;> cases c.mode <;> simp [isOverride, anyGlob, List.any_append]
+      | none => c.mode.isNone || matchesAny ((mapGet L.classes el).getD []) cl
+      | some ⟨true, l⟩ => matchesAny ((mapGet l el).getD []) cl
+      | some ⟨false, l⟩ => matchesAny ((mapGet l el).getD []) cl ||
+          (c.mode.isSome && matchesAny ((mapGet L.classes el).getD []) cl)) := by
+  unfold classOk modeCounts
+  cases c.removeClasses <;>
+  (cases h : c.allowClasses with
+   | none => cases c.mode <;> simp [matchesAny]
+   | some b =>
+     obtain ⟨o, l⟩ := b
+     cases o <;> cases c.mode <;> simp [matchesAny, List.any_append])
 
 /-- The three per-attribute scheme lists chained: absent if all three are. -/
 def chain3 (l s k : Option (List Str)) : Option (List Str) :=
@@ -239,7 +291,8 @@ def chain3 (l s k : Option (List Str)) : Option (List Str) :=
 theorem schemeList_override (L : Lists) (c : Cfg) (l : SchemeMap) (el a : Str)
     (h : c.allowSchemes = some ⟨true, l⟩) :
     schemeList L c el a = (mapGet l el).bind (mapGet · a) := by
-  unfold schemeList schemeCtx attrSchemes
+  rw [schemeList_eq_model]
+  unfold schemeCtx attrSchemes
   simp only [h, Option.isNone_some, Bool.false_and, Bool.false_eq_true, if_false, isOverride,
     Bool.not_true, Option.bind_some, Option.bind_none, Option.isNone_none, Bool.and_true,
     Option.getD_none, List.append_nil]
@@ -250,7 +303,8 @@ theorem schemeList_add (L : Lists) (c : Cfg) (l : SchemeMap) (el a : Str)
     schemeList L c el a = chain3 ((mapGet l el).bind (mapGet · a))
       (if c.mode.isSome then (mapGet L.schemesStrict el).bind (mapGet · a) else none)
       (if c.mode = some .compat then (mapGet L.schemesCompat el).bind (mapGet · a) else none) := by
-  unfold schemeList schemeCtx attrSchemes chain3 Cfg.useStrict Cfg.useCompat
+  rw [schemeList_eq_model]
+  unfold schemeCtx attrSchemes chain3 Cfg.useStrict Cfg.useCompat
   simp only [h, Option.isNone_some, Bool.false_and, Bool.false_eq_true, if_false, isOverride,
     Bool.not_false, Bool.true_and, Option.bind_some]
   cases hm : c.mode with
@@ -261,7 +315,8 @@ theorem schemeList_mode (L : Lists) (c : Cfg) (el a : Str) (h : c.allowSchemes =
     schemeList L c el a = chain3 none
       (if c.mode.isSome then (mapGet L.schemesStrict el).bind (mapGet · a) else none)
       (if c.mode = some .compat then (mapGet L.schemesCompat el).bind (mapGet · a) else none) := by
-  unfold schemeList schemeCtx attrSchemes chain3 Cfg.useStrict Cfg.useCompat
+  rw [schemeList_eq_model]
+  unfold schemeCtx attrSchemes chain3 Cfg.useStrict Cfg.useCompat
   simp only [h, Option.isNone_none, Bool.true_and, isOverride, Bool.not_false, Option.bind_none]
   cases hm : c.mode with
   | none => simp
